@@ -236,7 +236,7 @@ def validate_live(tab):
             else:
                 ents.append(("idx", ent))
         live.append((name, ents))
-    if live != [(n, list(r)) for n, r in tab["atomIdxs"]]:
+    if dict(live) != dict((n, list(r)) for n, r in tab["atomIdxs"]):   # a lookup table: order is irrelevant
         problems.append("TOPDirector.atom_idxs differs between ast and live class")
     live_keys = set(top_parser.TOPDirector.METH_DICT.keys())
     mine = set(tuple(names) for names, _ in tab["sections"]) | {("macros",)}
